@@ -444,11 +444,28 @@ ensures
     ])
     f.guard('tokenize', "pub fn tokenize(input: &str) -> impl Iterator<Item = Token> + '_ { let mut cursor = Cursor::new(input); std::iter::from_fn(move || { let token = cursor.advance_token(); if token.kind != TokenKind::Eof { Some(token) } else { None } }) }",
             why='the chain lemma c14_chain_table_from_tokens restates this loop')
-    x.guard('new', "pub fn new(text: &'a str) -> LexedStr<'a> { let mut conv = Converter::new(text); for token in oq3_lexer::tokenize(&text[conv.offset..]) { let token_text = &text[conv.offset..][..token.len as usize]; conv.extend_token(&token.kind, token_text); } conv.finalize_with_eof() }",
-            impl=r"LexedStr<'a>", why='the chain lemma c14_chain_table_from_tokens restates this loop')
-    U.raw(open(__file__.replace('units/lex.py', 'contracts/lex.lemmas.rs')).read(), note='lemmas')
+    # D37: LexedStr::new is `for token in tokenize(..) { BODY } TAIL`.  The header is restated by the chain function as "advance_token
+    # until Eof" (tokenize's own text is guarded below / above); BODY and TAIL are copied from /repo on every run into that function, with
+    # the nested str slice `&text[conv.offset..][..token.len as usize]` written as the stand-in slice_token_text(text, conv.offset, token.len).
+    # Any other frame (another prologue, another iterator) falls back to the whole-text guard: undecided.
+    import os as _os2
+    from vlib.unit import REPO as _REPO2
+    _ls = open(_os2.path.join(_REPO2, X)).read()
+    _mn = re.search(r"pub fn new\(text: &'a str\) -> LexedStr<'a> \{\n\s*let mut conv = Converter::new\(text\);\n\s*for token in oq3_lexer::tokenize\(&text\[conv\.offset\.\.\]\) \{\n(.*?)\n        \}\n\s*([^\n;]+)\n    \}\n", _ls, re.S)
+    U.new_frame_ok = bool(_mn)
+    if _mn:
+        _body = _mn.group(1).replace('&text[conv.offset..][..token.len as usize]', 'slice_token_text(text, conv.offset, token.len)')
+        U.new_pieces = (_body, _mn.group(2).strip())
+        U.build_log = getattr(U, 'build_log', []) + [('D37', "LexedStr::new: the `for token in tokenize(..)` header is restated as `advance_token until Eof` (tokenize's text is guarded); loop body and tail expression copied from /repo into c14_chain_table_from_tokens")]
+    else:
+        U.new_pieces = ('        let tt = slice_token_text(text, conv.offset, token.len);\n        conv.extend_token(&token.kind, tt);', 'conv.finalize_with_eof()')
+    if not _mn:
+      x.guard('new', "pub fn new(text: &'a str) -> LexedStr<'a> { let mut conv = Converter::new(text); for token in oq3_lexer::tokenize(&text[conv.offset..]) { let token_text = &text[conv.offset..][..token.len as usize]; conv.extend_token(&token.kind, token_text); } conv.finalize_with_eof() }",
+              impl=r"LexedStr<'a>", why='the chain lemma c14_chain_table_from_tokens restates this loop')
+    U.raw(open(__file__.replace('units/lex.py', 'contracts/lex.lemmas.rs')).read().replace('@@NEW_LOOP_BODY@@', U.new_pieces[0]).replace('@@NEW_TAIL@@', U.new_pieces[1]), note='lemmas')
     for _fc in (U.file(L), U.file(K), U.file(X)):
-        _fc.guard_rest('not under contract in this unit; text pinned (contracts/trusted_hashes.json)')
+        _fc.guard_rest('not under contract in this unit; text pinned (contracts/trusted_hashes.json)',
+                       skip=((r"<'a> LexedStr<'a>", 'new'), ("LexedStr<'a>", 'new')) if (U.new_frame_ok and _fc.rel == X) else ())
     U.assumed_dep = [
         'char::is_ascii / is_ascii_digit: documented behaviour (assume_specification)',
         'unicode_xid::is_xid_start/is_xid_continue and unicode_properties::is_emoji_char: uninterpreted tables, plus the ASCII facts of UAX #31 (axiom_xid_start_ascii / axiom_xid_continue_ascii)',
